@@ -137,6 +137,19 @@ def eval_slice(case):
     sperm = list(itertools.permutations(range(len(services))))
     seen = {}
     first = None
+    # history: other collectors were used in this process before (for another slice) - a fresh collector starts empty
+    try:
+        decoy = build((('S9', 'gpu'),), (('bridge', 0),), (0,), (0,), True)
+        decoy.validate()
+        AZ().collect_resource_attributes(source=decoy)
+        LogCollector().collect_resource_attributes(source=decoy)
+        fresh = LogCollector().attributes
+        if any(fresh[k] for k in ('nodes', 'components', 'services', 'facilities', 'sites')) or fresh['vm_count'] or fresh['core_count']:
+            v.append(('accounting/fresh-collector-not-empty', f'a new LogCollector already reports {dict(fresh)} {ctx}'))
+        if any(val for key, val in AZ().attributes.items() if key != AZ.RESOURCE_TYPE):        # (the type defaults to 'sliver')
+            v.append(('tally/fresh-collector-not-empty', f'a new ResourceAuthZAttributes already reports {dict(AZ().attributes)} {ctx}'))
+    except Exception as e:
+        v.append((f'raises/decoy/{type(e).__name__}', f'{e} {ctx}'))
     for no in nperm:
         for so in sperm:
             try:
